@@ -77,7 +77,7 @@ fn start() {
                     };
                     let _ = std::fs::write(&path, serde_json::to_string_pretty(&doc).unwrap());
                     // the evidence file must not survive from an earlier run
-                    let ev = serde_json::json!({"property_id": a.prop, "tier": "quick", "seed": 0, "level": "exploration", "coverage": {"evaluations": 0, "distinct_nontrivial": 0, "rule": "aborted by the wall-clock watchdog", "samples": [], "exhaustive": false}, "assumptions": [], "wall_s": a.since.elapsed().as_secs_f64(), "violations": 1});
+                    let ev = serde_json::json!({"property_id": a.prop, "tier": "quick", "seed": 0, "level": "exploration", "coverage": {"evaluations": 0, "distinct_nontrivial": 0, "rule": "aborted by the wall-clock watchdog", "samples": [{"aborted": doc["detail"].as_str().unwrap_or(""), "replay": path}], "exhaustive": false}, "assumptions": [], "wall_s": a.since.elapsed().as_secs_f64(), "violations": 1});
                     let _ = std::fs::create_dir_all(format!("{root}/evidence"));
                     let _ = std::fs::write(format!("{root}/evidence/{}.json", a.prop), serde_json::to_string_pretty(&ev).unwrap());
                     println!("  failure: {}/hang: {}", a.prop, doc["detail"].as_str().unwrap_or(""));
